@@ -1,15 +1,20 @@
 #!/bin/bash
-# Runs every seeded change against the quick check of each property it breaks; writes seeded/RESULTS.txt
-# (a seed counts as detected for a property when that check exits 1 with a VIOLATION line).
+# Runs every seeded change (or the ones named on the command line) against the quick check of each property it breaks;
+# writes seeded/RESULTS.txt (full run) or prints only (partial run).  A seed counts as detected for a property when that
+# check exits 1 with a VIOLATION line.
 out=/verif/seeded/RESULTS.txt
-: > "$out.tmp"
-for d in /verif/seeded/*/; do
-  id=$(basename "$d")
+if [ $# -gt 0 ]; then list="$*"; out=/dev/null; else list=$(ls -d /verif/seeded/*/ | xargs -n1 basename); fi
+: > "$out.tmp" 2>/dev/null || true
+for id in $list; do
+  d=/verif/seeded/$id
   [ -f "$d/meta.json" ] || continue
   props=$(python3 -c "import json;print(' '.join(json.load(open('$d/meta.json'))['breaks_properties']))")
   for p in $props; do
     r=$(/verif/tools/run_seeded.sh "$id" quick "$p" 2>&1 | grep "check $p exit=" | sed 's/.*exit=//')
-    echo "seed=$id property=$p check_exit=$r $( [ "$r" = 1 ] && echo DETECTED || echo NOT-DETECTED )" | tee -a "$out.tmp"
+    line="seed=$id property=$p check_exit=$r $( [ "$r" = 1 ] && echo DETECTED || echo NOT-DETECTED )"
+    echo "$line"
+    [ "$out" != /dev/null ] && echo "$line" >> "$out.tmp"
   done
 done
-mv "$out.tmp" "$out"
+[ "$out" != /dev/null ] && mv "$out.tmp" "$out"
+exit 0
